@@ -44,7 +44,7 @@ func typedArrays(p *Program) []*types.Named {
 }
 
 func checkC16(p *Program, r *Report) {
-	r.Explanation = "Decided for every array state and index: (agree) for each typed array the presence test and the byte offset of Get are the same normalised terms over (Bitmaps, Offsets, idx) as those of the generic Base.GetBytes path with eltsize = Sizeof(element) (Rank64 inlined; Mask[j] and (1<<j)-1 both mask(j)), the element is decoded by binary little-endian UintN of the same width through width-preserving conversions, and the absent path returns (0,false); equal terms mean equal results for every state, including the zero offset of empty words; (reject) in InitIndex/Init no store to the receiver and no use of the index list other than the order comparison can be followed by the ErrIndexNotAscending / ErrIndexLen return, and every New* returns a nil array with a non-nil error; (wire) every typed array and Array embed Base -> Array32, the only serialised part."
+	r.Explanation = "Decided for every array state and index: (agree) for each typed array the presence test and the byte offset of Get are the same normalised terms over (Bitmaps, Offsets, idx) as those of the generic Base.GetBytes path with eltsize = Sizeof(element) (Rank64 inlined; Mask[j] and (1<<j)-1 both mask(j)), the element is decoded by binary little-endian UintN of the same width through width-preserving conversions, and the absent path returns (0,false); equal terms mean equal results for every state, including the zero offset of empty words; (reject) in InitIndex/Init no store to the receiver and no use of the index list other than the order comparison can be followed by the ErrIndexNotAscending / ErrIndexLen return, and every New* returns a nil array with a non-nil error; (wire) every typed array and Array embed Base -> Array32, the only serialised part. (validated success) on Init's guarded summary every non-panicking path carries the success condition of the length validation or returns its sentinel; (stride) the default element encoder's Size is not an in-memory (padded) size."
 	r.NotCovered = "Correctness of the rank offsets themselves; the protobuf round trip."
 	r.Trusted = []string{"go/ssa, go/types", "openacid/low/bitmap.Rank64 (inlined symbolically)", "encoding/binary"}
 	gb := p.Method(p.Array, "Base", "GetBytes")
